@@ -437,7 +437,9 @@ func checkC03(c *Check) {
 	}
 }
 
-func itoa(i int) string { return strings.TrimSpace(strings.Replace(strings.Repeat(" ", 0)+fmtInt(i), " ", "", -1)) }
+func itoa(i int) string {
+	return strings.TrimSpace(strings.Replace(strings.Repeat(" ", 0)+fmtInt(i), " ", "", -1))
+}
 
 // reachableFrom: is `to` reachable from instruction `from` in the CFG?
 func reachableFrom(from, to ssa.Instruction) bool {
